@@ -27,9 +27,8 @@ _POD_FILE = None
 
 def base_env(tmp):
     from . import qa
-    pf = os.path.join(tmp, "pod.json")
-    qa.write_pod_table(pf)
-    return {"QA_POD_FILE": pf}
+    qa.write_pod_module(tmp)
+    return {"QA_TLA_LIBRARY": tmp}
 
 
 def judge(module, observations, cfg=None, env=None, timeout=900, workers=8, chunk=60000):
